@@ -3,7 +3,7 @@
 (* AlleleRules.tla.  One event per generated VCF (see harness/drive_alleles.py):                 *)
 (*   sites[i] = [c, p, ref, alts, gt]       the abstract VCF (p is 0-based)                       *)
 (*   hists[h].runs[r] = [lazy, cache, phased, sel: [explicit, s], ign, raised, ops]               *)
-(*   ops[o] = [op: "get"|"has"|"read", c, p, b, ans, raised] (+ seq: <<base,..>> for "read")       *)
+(*   ops[o] = [op: "get"|"has"|"read"|"mol", c, p, b, ans, raised] (+ seq for "read"/"mol")         *)
 (* Every expected answer is recomputed here from `sites` and the run's configuration; nothing    *)
 (* computed by Python is trusted.  Clauses:                                                      *)
 (*   Inv_C18_Truth   an answer is not the one the VCF dictates (for this run's configuration)    *)
@@ -38,6 +38,7 @@ ReadOK(e, r, o) ==
 
 OpOK(e, r, o) ==
     IF o.op = "read" THEN ReadOK(e, r, o)
+    ELSE IF o.op = "mol" THEN TRUE        \* a library consumer of the resolver (molecule allele tags): only its effect on LATER lookups is judged
     ELSE IF ~HasSite(e, o) THEN (IF o.op = "get" THEN o.ans = <<>> ELSE o.ans = FALSE)
     ELSE IF r.phased THEN (IF o.op = "get" THEN AnswerOK(SiteOf(e, o), CfgOf(r).sel, CfgOf(r).ign, o.b, SeqSet(o.ans))
                            ELSE HasLocOK(SiteOf(e, o), CfgOf(r).sel, CfgOf(r).ign, o.ans))
@@ -62,7 +63,7 @@ FirstBad(e, hh, Bad(_, _, _)) ==
 Where(t) == "|h=" \o ToString(t[1]) \o "|r=" \o ToString(t[2]) \o "|o=" \o ToString(t[3])
 
 (* answers on "either" sites, keyed by configuration and query *)
-EitherOps(e) == { t \in AllOps(e) : /\ Judged(Run(e, t)) /\ Op(e, t).op # "read" /\ HasSite(e, Op(e, t))
+EitherOps(e) == { t \in AllOps(e) : /\ Judged(Run(e, t)) /\ Op(e, t).op \notin {"read", "mol"} /\ HasSite(e, Op(e, t))
                                     /\ (IF Run(e, t).phased
                                         THEN Class(SiteOf(e, Op(e, t)), CfgOf(Run(e, t)).sel, CfgOf(Run(e, t)).ign)
                                         ELSE UClass(SiteOf(e, Op(e, t)), CfgOf(Run(e, t)).ign)) = "either" }
